@@ -1228,13 +1228,22 @@ class VM:
             sep = "," if not args else to_string(args[0])
             return sep.join(array_elem_to_string(elem) for elem in arr._elements)
 
+        def initial_elements():
+            """(index, element) pairs of an iteration whose range is fixed when it
+            starts, as in JavaScript: a callback that appends to the array does not
+            extend the iteration it is running in; removed elements are skipped."""
+            for i in range(len(arr._elements)):
+                if i >= len(arr._elements):
+                    break
+                yield i, arr._elements[i]
+
         def map_fn(*args):
             callback = args[0] if args else None
             if not callback:
                 return JSArray()
             result = JSArray()
             result._elements = []
-            for i, elem in enumerate(arr._elements):
+            for i, elem in initial_elements():
                 val = vm._call_callback(callback, [elem, i, arr])
                 result._elements.append(val)
             return result
@@ -1245,7 +1254,7 @@ class VM:
                 return JSArray()
             result = JSArray()
             result._elements = []
-            for i, elem in enumerate(arr._elements):
+            for i, elem in initial_elements():
                 val = vm._call_callback(callback, [elem, i, arr])
                 if to_boolean(val):
                     result._elements.append(elem)
@@ -1316,7 +1325,7 @@ class VM:
             callback = args[0] if args else None
             if not callback:
                 return UNDEFINED
-            for i, elem in enumerate(arr._elements):
+            for i, elem in initial_elements():
                 vm._call_callback(callback, [elem, i, arr])
             return UNDEFINED
 
@@ -1344,7 +1353,7 @@ class VM:
             callback = args[0] if args else None
             if not callback:
                 return UNDEFINED
-            for i, elem in enumerate(arr._elements):
+            for i, elem in initial_elements():
                 val = vm._call_callback(callback, [elem, i, arr])
                 if to_boolean(val):
                     return elem
@@ -1354,7 +1363,7 @@ class VM:
             callback = args[0] if args else None
             if not callback:
                 return -1
-            for i, elem in enumerate(arr._elements):
+            for i, elem in initial_elements():
                 val = vm._call_callback(callback, [elem, i, arr])
                 if to_boolean(val):
                     return i
@@ -1364,7 +1373,7 @@ class VM:
             callback = args[0] if args else None
             if not callback:
                 return False
-            for i, elem in enumerate(arr._elements):
+            for i, elem in initial_elements():
                 val = vm._call_callback(callback, [elem, i, arr])
                 if to_boolean(val):
                     return True
@@ -1374,7 +1383,7 @@ class VM:
             callback = args[0] if args else None
             if not callback:
                 return True
-            for i, elem in enumerate(arr._elements):
+            for i, elem in initial_elements():
                 val = vm._call_callback(callback, [elem, i, arr])
                 if not to_boolean(val):
                     return False
